@@ -622,7 +622,8 @@ func (r *Run) Concretize(t *sym.Term, site string) uint64 {
 			r.abort("solver unknown while enumerating values at %s", site)
 		}
 		m = w.S.Model(r.allSyms())
-		// evaluate t under m
+		// evaluate t under m (the value is re-checked by the solver: it is asserted
+		// different from t on the next round, and equal to t when the alternative is taken)
 		v := sym.Eval(t, m, map[*sym.Term]uint64{})
 		alts = append(alts, v)
 		if len(alts) > max {
@@ -720,9 +721,9 @@ func (r *Run) currentModelOrSolve() map[string]uint64 {
 	if len(r.inputs) == 0 {
 		return map[string]uint64{}
 	}
-	res := r.W.S.Check()
+	res, m := r.W.S.CheckStack(r.allSyms())
 	if res == sym.Sat {
-		return r.W.S.Model(r.allSyms())
+		return m
 	}
 	if res == sym.Unsat {
 		// the path itself is infeasible (can only happen after an unknown feasibility answer)
